@@ -244,6 +244,18 @@ claim("C08", "other",
       "wire-table extraction from MIR (writer/reader/length siblings) + tag-table comparison + reference-layout comparison",
       "DESIGN.md §3 C08")
 
+claim("C03", "other",
+      "Structural clauses decided statically by field-copy agreement on extracted aggregates: every carrier of an entry "
+      "(KeyValueMutation, KeyValueMutationRef, DeltaOpRef, DeltaOp::Node, NodeDigest, the (id, digest) pair, the receiver's "
+      "VersionedValue) takes each field from the same-named source field / positional argument and an accepted insert stores "
+      "the update unchanged with no later rewrite; status conversions compose to the identity on kinds; decode grouping "
+      "(flush, duplicate-member rejection, ops only through the current member delta, error without header); heartbeat "
+      "provenance and SetMaxVersion content re-checked through the rules of C05/C14/C02.",
+      "NOT decided: 'no copy's max version or heartbeat ever exceeds the owner's' — an induction over histories. Swapped "
+      "fields are self-consistent at run time (invisible to round-trip tests), which is what the field-copy rule is for.",
+      "field-copy agreement on aggregates extracted from MIR + decision tables of the decoder + inventories",
+      "DESIGN.md §3 C03")
+
 ALL = ["C%02d" % i for i in range(1, 21)]
 PENDING_REASON = "check under construction in this session (rules designed in DESIGN.md §3, not yet armed)"
 
